@@ -1,1 +1,224 @@
+(* Lemmas on Stream.v: read_until / read_line depend on the concatenation of the chunks
+   only (chunk independence), and the number of lines left strictly decreases with
+   every non-empty read (the measure of the reader's loops). *)
+From Coq Require Import List Bool Arith NArith Lia.
+From Coq Require Import Init.Byte.
+From LMTransfac Require Import Bytes Stream.
+Import ListNotations.
 
+(* ---- the flat specification: first line of a byte string ---- *)
+
+Definition first_line (l : str) : str * str :=
+  match split_nl l with
+  | Some (p, r) => (p, r)
+  | None => (l, [])
+  end.
+
+Lemma split_nl_app_some c rest p r :
+  split_nl c = Some (p, r) -> split_nl (c ++ rest) = Some (p, r ++ rest).
+Proof.
+  revert p r. induction c as [|b t IH]; intros p r H; simpl in *; [discriminate|].
+  destruct (is_nl b).
+  - inversion H; subst. reflexivity.
+  - destruct (split_nl t) as [[p' r']|] eqn:E; [|discriminate].
+    inversion H; subst. rewrite (IH _ _ eq_refl). reflexivity.
+Qed.
+
+Lemma split_nl_app_none c rest :
+  split_nl c = None ->
+  split_nl (c ++ rest) = match split_nl rest with
+                         | Some (p, r) => Some (c ++ p, r)
+                         | None => None
+                         end.
+Proof.
+  induction c as [|b t IH]; intros H; simpl in *.
+  - destruct (split_nl rest) as [[p r]|]; reflexivity.
+  - destruct (is_nl b); [discriminate|].
+    destruct (split_nl t) as [[p' r']|] eqn:E; [discriminate|].
+    rewrite (IH eq_refl). destruct (split_nl rest) as [[p r]|]; reflexivity.
+Qed.
+
+Lemma split_nl_some_app c p r : split_nl c = Some (p, r) -> c = p ++ r.
+Proof.
+  revert p r. induction c as [|b t IH]; intros p r H; simpl in *; [discriminate|].
+  destruct (is_nl b).
+  - inversion H; subst. reflexivity.
+  - destruct (split_nl t) as [[p' r']|] eqn:E; [|discriminate].
+    inversion H; subst. simpl. f_equal. apply IH. reflexivity.
+Qed.
+
+Lemma split_nl_some_nonempty c p r : split_nl c = Some (p, r) -> p <> [].
+Proof.
+  destruct c as [|b t]; simpl; [discriminate|].
+  destruct (is_nl b).
+  - intros H; inversion H; discriminate.
+  - destruct (split_nl t) as [[p' r']|]; [|discriminate]. intros H; inversion H; discriminate.
+Qed.
+
+(* read_until on a stream = first line of the concatenation *)
+Lemma read_until_nl_spec s : forall acc,
+  fst (read_until_nl s acc) = acc ++ fst (first_line (concat s)) /\
+  concat (snd (read_until_nl s acc)) = snd (first_line (concat s)).
+Proof.
+  induction s as [|c rest IH]; intros acc; simpl.
+  - unfold first_line; simpl. rewrite app_nil_r. auto.
+  - destruct (split_nl c) as [[p r]|] eqn:E.
+    + unfold first_line. rewrite (split_nl_app_some c (concat rest) p r E). simpl. auto.
+    + destruct (IH (acc ++ c)) as [H1 H2]. rewrite H1, H2.
+      unfold first_line. rewrite (split_nl_app_none c (concat rest) E).
+      destruct (split_nl (concat rest)) as [[p r]|]; simpl; rewrite <- app_assoc; auto.
+Qed.
+
+(* read_line on the flat byte string *)
+Definition read_line_flat (l : str) (buf : str) : rl_result * str * str :=
+  let '(line, rest) := first_line l in
+  if utf8_valid line then (RlOk (length line), buf ++ line, rest)
+  else (RlInvalidUtf8, buf, rest).
+
+Lemma read_line_spec s buf :
+  fst (fst (read_line s buf)) = fst (fst (read_line_flat (concat s) buf)) /\
+  snd (fst (read_line s buf)) = snd (fst (read_line_flat (concat s) buf)) /\
+  concat (snd (read_line s buf)) = snd (read_line_flat (concat s) buf).
+Proof.
+  unfold read_line, read_line_flat.
+  destruct (read_until_nl_spec s []) as [H1 H2].
+  destruct (read_until_nl s []) as [line s'] eqn:E. simpl in H1, H2.
+  destruct (first_line (concat s)) as [fl rest] eqn:F. simpl in H1, H2. subst line.
+  destruct (utf8_valid fl); simpl; auto.
+Qed.
+
+(* Chunk independence of read_line: two chunkings of the same bytes give the same
+   result, the same buffer, and streams that again hold the same bytes. *)
+Lemma read_line_chunk_independent_lemma s1 s2 buf :
+  concat s1 = concat s2 ->
+  fst (read_line s1 buf) = fst (read_line s2 buf) /\
+  concat (snd (read_line s1 buf)) = concat (snd (read_line s2 buf)).
+Proof.
+  intros H.
+  destruct (read_line_spec s1 buf) as (A1 & A2 & A3).
+  destruct (read_line_spec s2 buf) as (B1 & B2 & B3).
+  rewrite H in A1, A2, A3. split.
+  - destruct (read_line s1 buf) as [[r1 b1] t1], (read_line s2 buf) as [[r2 b2] t2]; simpl in *.
+    congruence.
+  - congruence.
+Qed.
+
+(* ---- the measure: number of lines left ---- *)
+
+Fixpoint nlines_aux (l : str) (pending : bool) : nat :=
+  match l with
+  | [] => if pending then 1 else 0
+  | b :: t => if is_nl b then S (nlines_aux t false) else nlines_aux t true
+  end.
+Definition nlines (l : str) : nat := nlines_aux l false.
+
+Lemma nlines_aux_true_pos l : 1 <= nlines_aux l true.
+Proof. induction l as [|b t IH]; simpl; [lia|]. destruct (is_nl b); lia. Qed.
+
+Lemma nlines_aux_pending l : l <> [] -> nlines_aux l false = nlines_aux l true.
+Proof. destruct l as [|b t]; [congruence|]. simpl. reflexivity. Qed.
+
+Lemma first_line_nil : first_line [] = ([], []).
+Proof. reflexivity. Qed.
+
+Lemma split_nl_some_nlines l : forall p r pend,
+  split_nl l = Some (p, r) -> nlines_aux l pend = S (nlines_aux r false).
+Proof.
+  induction l as [|b t IH]; intros p r pend H; simpl in *; [discriminate|].
+  destruct (is_nl b).
+  - inversion H; subst. reflexivity.
+  - destruct (split_nl t) as [[p' r']|] eqn:E; [|discriminate].
+    inversion H; subst. apply (IH _ _ true eq_refl).
+Qed.
+
+Lemma split_nl_none_nlines l : split_nl l = None -> nlines_aux l true = 1.
+Proof.
+  induction l as [|b t IH]; intros H; simpl in *; [reflexivity|].
+  destruct (is_nl b); [discriminate|].
+  destruct (split_nl t) as [[p' r']|]; [discriminate|]. apply IH. reflexivity.
+Qed.
+
+(* a non-empty input gives a non-empty line and one line less to read *)
+Lemma first_line_measure l line rest :
+  first_line l = (line, rest) -> l <> [] ->
+  line <> [] /\ nlines l = S (nlines rest) /\ l = line ++ rest.
+Proof.
+  unfold first_line, nlines. intros H Hne.
+  destruct (split_nl l) as [[p r]|] eqn:E.
+  - inversion H; subst. split; [exact (split_nl_some_nonempty _ _ _ E)|].
+    split; [exact (split_nl_some_nlines _ _ _ false E)|exact (split_nl_some_app _ _ _ E)].
+  - inversion H; subst. split; [exact Hne|]. split; [|rewrite app_nil_r; reflexivity].
+    rewrite nlines_aux_pending by exact Hne. simpl. apply split_nl_none_nlines. exact E.
+Qed.
+
+Lemma read_line_flat_nil buf : read_line_flat [] buf = (RlOk 0, buf ++ [], []).
+Proof. reflexivity. Qed.
+
+(* what one read_line call does, in terms of the flat bytes *)
+Lemma read_line_cases s buf :
+  (concat s = [] /\ fst (read_line s buf) = (RlOk 0, buf) /\ concat (snd (read_line s buf)) = []) \/
+  (exists line rest, concat s = line ++ rest /\ line <> [] /\
+     nlines (concat s) = S (nlines rest) /\ concat (snd (read_line s buf)) = rest /\
+     ((utf8_valid line = true /\ fst (read_line s buf) = (RlOk (length line), buf ++ line)) \/
+      (utf8_valid line = false /\ fst (read_line s buf) = (RlInvalidUtf8, buf)))).
+Proof.
+  destruct (read_line_spec s buf) as (A1 & A2 & A3).
+  destruct (read_line s buf) as [[r bb] ss] eqn:R. cbn [fst snd] in *.
+  destruct (concat s) as [|b t] eqn:E.
+  - left. split; [reflexivity|]. rewrite read_line_flat_nil in *. cbn [fst snd] in *.
+    rewrite app_nil_r in A2. subst. auto.
+  - right. unfold read_line_flat in *.
+    destruct (first_line (b :: t)) as [line rest] eqn:F.
+    destruct (first_line_measure _ _ _ F) as (L1 & L2 & L3); [discriminate|].
+    exists line, rest. split; [exact L3|]. split; [exact L1|]. split; [exact L2|].
+    destruct (utf8_valid line) eqn:U; cbn [fst snd] in *; subst.
+    + split; [reflexivity|]. left. auto.
+    + split; [reflexivity|]. right. auto.
+Qed.
+
+(* ---- the fuel computed by the model covers the measure ---- *)
+
+Definition count_nl (l : str) : nat := length (filter is_nl l).
+
+Lemma fold_count c : forall n,
+  fold_left (fun n b => if is_nl b then S n else n) c n = n + count_nl c.
+Proof.
+  unfold count_nl. induction c as [|b t IH]; intros n; simpl; [lia|].
+  rewrite IH. destruct (is_nl b); simpl; lia.
+Qed.
+
+Lemma stream_fuel_count s : forall a,
+  fold_left (fun n c => fold_left (fun n b => if is_nl b then S n else n) c n) s a
+  = a + count_nl (concat s).
+Proof.
+  induction s as [|c rest IH]; intros a; simpl; [unfold count_nl; simpl; lia|].
+  rewrite IH, fold_count. unfold count_nl. rewrite filter_app, app_length. lia.
+Qed.
+
+Lemma nlines_aux_le_count l p : nlines_aux l p <= count_nl l + 1.
+Proof.
+  unfold count_nl. revert p. induction l as [|b t IH]; intros p; simpl.
+  - destruct p; lia.
+  - destruct (is_nl b); simpl; [specialize (IH false)|specialize (IH true)]; lia.
+Qed.
+
+Lemma stream_fuel_ge s : nlines (concat s) + 2 <= stream_fuel s.
+Proof.
+  unfold stream_fuel. rewrite stream_fuel_count.
+  pose proof (nlines_aux_le_count (concat s) false). unfold nlines. lia.
+Qed.
+
+Lemma stream_fuel_concat s1 s2 : concat s1 = concat s2 -> stream_fuel s1 = stream_fuel s2.
+Proof. intros H. unfold stream_fuel. rewrite !stream_fuel_count, H. reflexivity. Qed.
+
+(* ---- UTF-8: a valid string does not start with a continuation byte ---- *)
+
+Lemma utf8_valid_head b t : utf8_valid (b :: t) = true -> is_cont b = false.
+Proof.
+  unfold is_cont. cbn [utf8_valid]. intros H.
+  destruct (N.ltb (bN b) 128) eqn:E1.
+  - apply N.ltb_lt in E1. destruct (N.leb 128 (bN b)) eqn:E2; [apply N.leb_le in E2; lia|reflexivity].
+  - destruct (N.ltb (bN b) 194) eqn:E2; [discriminate|].
+    apply N.ltb_ge in E2. destruct (N.ltb (bN b) 192) eqn:E3; [apply N.ltb_lt in E3; lia|].
+    apply andb_false_r.
+Qed.
